@@ -21,12 +21,17 @@
                                        snap  [has, t]: the frame was entered from inside a try block of its
                                              caller; t is the table at that moment (what a caught
                                              exception restores)
-   Stack    sequence of frames, stack[1] the entry script, the last one is executing *)
+   Stack    sequence of frames, stack[1] the entry script, the last one is executing.  "M" is the native
+            ContractManagement contract: update / deploy may run the (new) contract's _deploy method before they
+            return - frames M and c on top of the frame that called update / deploy; the table already holds the
+            new manifest while _deploy runs.  An exception that leaves _deploy uncaught cannot be caught by
+            anybody below the native frame: the transaction FAULTs. *)
 EXTENDS Integers, Sequences, FiniteSets, SequencesExt
 
 W == INSTANCE Witness
 
 EntryHash == "E"
+MgmtHash == "M"
 AbsentE == [st |-> "absent", groups |-> {}, uc |-> 0]
 DeadE   == [st |-> "dead", groups |-> {}, uc |-> 0]
 LiveE(g, uc) == [st |-> "live", groups |-> g, uc |-> uc]
@@ -64,6 +69,12 @@ Top(st) == st[Len(st)]
 Pop(st) == SubSeq(st, 1, Len(st) - 1)
 
 PushCall(st, t, c, rs, try) == Append(st, Fr(c, rs, IF try THEN SnapOf(t) ELSE NoSnap(t)))
+\* ContractManagement calls c._deploy
+PushDeployCb(st, t, c) == st \o << Fr(MgmtHash, TRUE, NoSnap(t)), Fr(c, TRUE, NoSnap(t)) >>
+\* a frame returns; the native frame that called it (if any) returns right after it
+PopRet(st) == IF Len(st) > 2 /\ st[Len(st) - 1].hash = MgmtHash THEN SubSeq(st, 1, Len(st) - 2) ELSE Pop(st)
+\* contract frames above the entry script
+Depth(st) == Cardinality({i \in 2..Len(st) : st[i].hash # MgmtHash})
 Updated(t, c, g)  == [t EXCEPT ![c] = LiveE(g, t[c].uc + 1)]
 Destroyed(t, c)   == [t EXCEPT ![c] = DeadE]
 Deployed(t, c, g) == [t EXCEPT ![c] = LiveE(g, 0)]
@@ -72,8 +83,10 @@ Deployed(t, c, g) == [t EXCEPT ![c] = LiveE(g, 0)]
    that was made inside one: that frame and everything above it are gone, the table is what it was when the
    call was made.  0: nobody catches it (the transaction FAULTs). *)
 CatchIndex(st) ==
-    LET I == {i \in 2..Len(st) : st[i].snap.has} IN
-    IF I = {} THEN 0 ELSE CHOOSE i \in I : \A j \in I : j <= i
+    LET N == {i \in 1..Len(st) : st[i].hash = MgmtHash}
+        lim == IF N = {} THEN 1 ELSE CHOOSE i \in N : \A j \in N : j <= i      \* nothing below a native frame catches
+        I == {i \in (lim + 1)..Len(st) : st[i].snap.has}
+    IN IF I = {} THEN 0 ELSE CHOOSE i \in I : \A j \in I : j <= i
 AfterThrowStack(st) == SubSeq(st, 1, CatchIndex(st) - 1)
 AfterThrowTable(st) == st[CatchIndex(st)].snap.t
 =============================================================================
